@@ -50,6 +50,13 @@ def _site(rng):
 
 
 def _start(rng):
+    t = _start_whole(rng)
+    if rng.random() < 0.15:
+        t = t.replace(microsecond=rng.choice([500000, 250000, 750000, 123456, 999000]))  # "any start instant": also between two seconds
+    return t
+
+
+def _start_whole(rng):
     y = rng.choice([2014, 2015, 2016, 2018, 2019, 2020, 2021, 2022])
     r = rng.random()
     if r < 0.15:
